@@ -94,7 +94,7 @@ def make_queries(g, rng):
 
 
 def run(ctx):
-    nprog = ctx.scale(380, 9000)
+    nprog = ctx.scale(320, 9000)
     ev, nontrivial, dist, failures, tie_breaks, samples = S.run_differential(
         ctx, FEATS, nprog, check_fn="check_run", log=True, make_queries=make_queries, key_fn=key_fn, est_limits=(80, 1500),
         nontrivial_fn=lambda prog, q, o: (contains(q, ALLSOL) or any(contains(b, ALLSOL) for _, b in prog)) and bool(o[1] or o[2] is not None))
